@@ -18,6 +18,8 @@ RULE = ("kinds: direct (random screen of single-sample plates built with the rea
         "and multi-sample plates).  Non-trivial: at least one plate; distinct by canonical case description.")
 THEOREMS = {
     "C16_model_is_source": "the hand-written model filter_eligible equals, for all inputs, the Gallina translation of the whole method filter_eligible_plates regenerated from /repo's current source on this run (Generated/SrcPolicy.v)",
+    "C16_model_is_source_select_next_plate": "the Gallina translation (C16 vocabulary) of the whole function scoring/main.py select_next_plate regenerated from /repo on this run (Generated/SrcScoringPolicy.v), called with KPerSamplePlatePolicy(k), equals for all inputs the model select_next (hence its arguments to the policy are select_args); the code returns the Plate screen.get_plate(chosen id) after reading its name, the model the eligible ids and the chosen id",
+    "C16_model_is_source_select_next_plate_distinct_ids": "on a screen with distinct plate ids the name lookup cannot fail: the translated select_next_plate returns exactly get_plate of the id the model chose (None iff the model chose none)",
     "C16_eligible_subset": "the eligible list is the remaining list filtered by a predicate (subset, order kept), for every state",
     "C16_in_progress_only": "reachable state with a sample at 1..k-1 plates in the batch: eligible = exactly the remaining plates of that sample, and non-empty",
     "C16_open_needs_k": "an eligible plate whose sample has no plate in the batch has >= k remaining plates of its sample (every state)",
@@ -39,7 +41,17 @@ EXPLANATION = ("Tie to the code, two ways: (1) the whole method filter_eligible_
                "every run (harness/py2gal.py, fail-closed: any construct outside its fragment, a changed parameter list or an undeclared "
                "variable stops the build) and C16_model_is_source proves the hand-written model equal to the translation for all inputs - "
                "trusted there: the translator (its rendering of for / if / raise / defaultdict / set into Lib/PyRt.v) and the two "
-               "attribute primitives Plate.n_unique_samples and Plate.sample_ids[0]; (2) the differential correspondence below, which also "
+               "attribute primitives Plate.n_unique_samples and Plate.sample_ids[0]; (1b) the caller scoring/main.py select_next_plate is "
+               "re-translated the same way (configuration C16_SELECT in harness/src_functions.py -> Generated/SrcScoringPolicy.v) and "
+               "C16_model_is_source_select_next_plate proves it equal to the model select_next / select_args for all inputs - the default "
+               "arguments, both comprehensions, the sort, the optional policy test, the early return and the propagation of exceptions come "
+               "from the translation; trusted there, besides the translator, exactly these primitives (meaning in Model/Policy.v): "
+               "np.random.default_rng() (an unread token), screen.plates = the list of plates, plate.plate_id = plate_id, plate.is_observed = "
+               "a function `obs` of the Plate object, sorted(l, key=lambda p: p.plate_id) = sort_by_id (stable), "
+               "policy.filter_eligible_plates(batch_plates, unobserved_plates, rng) = filter_eligible k (the function C16_model_is_source ties "
+               "to the method's source), scores.plate_id_with_minimum_score(ids) = min_score_id, screen.get_plate(i) = get_plate (the plate "
+               "with that id, a row-less Plate if none), plate.plate_name = plate_name (IndexError iff no row); logger calls are skipped; "
+               "(2) the differential correspondence below, which also "
                "exercises those primitives and select_next_plate.  Model: Model/Policy.v (filter_eligible with insertion-ordered association lists for the three containers, the "
                "argument construction of select_next_plate, first-minimum score selection).  The history relation used by the "
                "theorems lets the new plate be inserted anywhere in the batch and the remaining list be permuted, so it covers both "
